@@ -128,15 +128,32 @@ def run(chk):
         chk.ok("C05.once", hreq, f"_handle_request(): every path to a normal return passes one of the {len(fins)} finish_response calls")
     else:
         chk.violation("C05.once", hreq, "_handle_request", "finish_response on every returning path", "a handler outcome returns without a response having been finished", path=gh.fmt_path(path))
+    # A second finish_response after one that *returned* is a second response.  After one that *raised* the only way on is handle_error(),
+    # which refuses (ConnectionError) once a byte of the first went out (checked below).
+    herr_nodes = [n for n in gh.nodes if K.node_has(n, "self.handle_error(...)")]
     twice = None
     for f1 in fins:
-        p2 = gh.find_path([f1], lambda n: n in fins, lambda n: False, EXPLICIT)
+        p2 = gh.find_path(None, lambda n: n in fins, lambda n: False, EXPLICIT, start_edges=[(f1, "n")])
+        if p2 is None:
+            p2 = gh.find_path(None, lambda n: n in fins, lambda n: n in herr_nodes, EXPLICIT, start_edges=[(f1, "x-await"), (f1, "x-call")])
         if p2 is not None:
             twice = p2
     if twice is None:
-        chk.ok("C05.once", hreq, "_handle_request(): no path passes two finish_response calls (at most one response per request)")
+        chk.ok("C05.once", hreq, "_handle_request(): no path passes two finish_response calls, except through handle_error() after the first one raised (at most one response per request)")
     else:
         chk.violation("C05.once", hreq, "_handle_request", "at most one finish_response per path", "two responses can be finished for one request", path=gh.fmt_path(twice))
+    # ---- C05.once.start: the handler's own response failing to start is answered like a failed handler ------------------------
+    hcall = [n for n in gh.nodes if K.node_has(n, "await request_handler($R)")]
+    own = [f for f in fins if hcall and gh.find_path(None, lambda n, f=f: n is f, lambda n: n.kind == "handler" or n in herr_nodes or (n in fins and n is not f), EXPLICIT, start_edges=[(hcall[0], "n")]) is not None]
+    e500 = [n for n in gh.nodes if K.node_has(n, "self.handle_error($R, 500, $E)")]
+    if not own:
+        chk.error("C05.once.start", hreq, "no finish_response call takes the handler's own response")
+    for f in own:
+        if gh.find_path(None, lambda n: n in e500, lambda n: False, EXPLICIT, start_edges=[(f, "x-await"), (f, "x-call")]) is not None:
+            chk.ok("C05.once.start", f, "an exception out of finishing the handler's response (prepare hooks, header serialisation) reaches handle_error(request, 500, exc)")
+        else:
+            chk.violation("C05.once.start", hreq, "resp, reset = await self.finish_response(request, resp, start_time)", "except Exception as exc: self.handle_error(request, 500, exc)",
+                          "a response that fails to start escapes _handle_request(): the client gets no answer, only a dropped connection")
     # outcome mapping
     want = [("asyncio.TimeoutError", "self.handle_error($R, 504)", "handler timeout -> 504"), ("Exception", "self.handle_error($R, 500, $E)", "handler error -> 500")]
     for h in [h for t in ast.walk(hreq.node) if isinstance(t, ast.Try) for h in t.handlers]:
